@@ -298,11 +298,20 @@ def run(ctx):
     corr = evaluate(ctx, gen(ctx), ["dbg", "isa"] if ctx.quick else ["dbg", "isa", "rel"])
     from harness import narrowlib
     narrowlib.part(ctx, corr, "clamp", "clamp_value")      # 8- and 16-bit coordinate types, every value of the type
+    from harness import ldlib
+    ldlib.part(ctx, corr, ['clamp', 'nn'], "clamp_value")      # long double coordinates
     return corr
 
 
 def replay(ctx):
     c = ctx.replay["case"]
+    if c and c.get("op") == "longdouble":
+        from vlib.framework import Corr as _Corr
+        from harness import ldlib
+        corr = _Corr()
+        corr.add_obl("clamp_value")
+        ldlib.part(ctx, corr, c["ops"], "clamp_value", cfgs=(c.get("cfg", "dbg"),))
+        return corr
     if c and c.get("op") == "narrow":
         from vlib.framework import Corr as _Corr
         from harness import narrowlib
